@@ -89,7 +89,10 @@ def oracle_call(K, args):
             real_args.append(from_sym(a))
         else:
             raise Unsupported(f"oracle call: argument sort {srt}")
-    res = policy.resolve(K.name)(*real_args)
+    fn = policy.resolve(K.name)
+    if getattr(K.cls, "runtime_tempcwd", False):
+        fn = policy._in_tempcwd(fn)
+    res = fn(*real_args)
     if hasattr(res, "__next__"):
         res = list(res)
     r = K.returns
@@ -244,6 +247,8 @@ def real_run(qualname, args):
     fn = policy.resolve(qualname)
     if list(dsl.CONTRACTS[qualname].params)[:1] == ["cls"]:
         args = args[1:]
+    if getattr(dsl.CONTRACTS[qualname].cls, "runtime_tempcwd", False):
+        fn = policy._in_tempcwd(fn)
     try:
         res = fn(*args)
         if hasattr(res, "__next__"):
